@@ -15,7 +15,7 @@ rsync -a --delete --exclude target "$HERE/sim/" "$ISO/verif/sim/"
 cp "$HERE/known_findings.json" "$ISO/verif/"
 sed -i "s#/repo/#$ISO/repo/#g" "$ISO/verif/sim/rt/Cargo.toml" "$ISO/verif/sim/wrap-server/build.rs" "$ISO/verif/sim/wrap-client/build.rs"
 export CARGO_NET_OFFLINE=true TZ=UTC VERIF_DIR="$ISO/verif"
-PROPS="$(python3 -c "import json;print(' '.join(c['property_id'] for c in json.load(open('$HERE/MANIFEST.json'))['checks']))" 2>/dev/null)"
+PROPS="${ONLY:-}"; [ -n "$PROPS" ] || PROPS="$(python3 -c "import json;print(' '.join(c['property_id'] for c in json.load(open('$HERE/MANIFEST.json'))['checks']))" 2>/dev/null)"
 [ -n "$PROPS" ] || PROPS="C01 C02 C03 C07 C08 C09 C10 C11 C12 C14 C15 C16 C17 C18 C19 C20"
 bad=0; good=0
 for patch in "$HERE"/quiet/*.patch; do
